@@ -19,8 +19,8 @@ RULE = ('contents: multisets (<=2, thorough <=3) over {old, recent, undated, gar
         'flags {-, --trash-dir, -v, -vv, two volumes, --trash-dir LINK/../dir with a look-alike where a lexical collapse would point}; replies: all strings of length <=2 over {y,Y,n,N,e,s,space} + {"", EOF, yes, no, Yes, " y", nope, "yY", "\\ty"} x {-i, isatty=True} x DAYS {none, 1}, and 6 negative replies when only payloads without .trashinfo are left; '
         'non-trivial = something was eligible for removal; distinct = (part, DAYS, flags or reply class, outcome)')
 NOW = '2024-05-06T07:08:09'
-KINDS = ['old', 'recent', 'undated', 'garbage', 'nopayload', 'tree', 'link']
-FLAGS = ['-', 'trash-dir', '-v', '-vv', 'twovol', 'trash-dir-dotdot']
+KINDS = ['old', 'recent', 'undated', 'garbage', 'nopayload', 'tree', 'link', 'dangling']
+FLAGS = ['-', 'trash-dir', '-v', '-vv', 'twovol', 'trash-dir-dotdot', 'readonly-dirs']
 DAYS = [None, 0, 1]
 RALPHA = ['y', 'Y', 'n', 'N', 'e', 's', ' ']
 REXTRA = ['', None, 'yes', 'no', 'Yes', ' y', 'nope', 'yY', '\ty', 'Ýes', 'y\x00']
@@ -65,7 +65,7 @@ def fill(W, td, ms, rel):
         nm = ('e', 'e_1.trashinfo.x', '.e2', 'e.txt')[i % 4]          # the first name is a proper prefix of the second and fourth; '.trashinfo' inside a name; a hidden one
         pv = ('w/%s' if rel else '/home/u/w/%s') % nm
         date = {'old': '2020-01-01T00:00:00', 'recent': NOW, 'undated': None, 'garbage': 'soon'}.get(k, '2020-01-01T00:00:00')
-        payload = {'nopayload': None, 'tree': 'tree', 'link': 'ldir'}.get(k, 'file')
+        payload = {'nopayload': None, 'tree': 'tree', 'link': 'ldir', 'dangling': 'ldang'}.get(k, 'file')
         scen.add_trashed(W, td, nm, pv, date, payload=payload, tag=nm)
     W.file(td + '/files/orphan', 'orphan\n')
     W.file(td + '/directorysizes', '4096 1600000000 e0\n')          # size cache written by other implementations (spec 1.0)
@@ -96,6 +96,9 @@ def build(c):
     for td in tds:
         scen.add_trash_dir(W, td)
         fill(W, td, ms, rel=td.startswith('/mnt'))
+        if fl == 'readonly-dirs':
+            W.nodes[td + '/files'][2] = 0o555          # files/ and info/ without write permission bits (root ignores them, a dry run must not "repair" them)
+            W.nodes[td + '/info'][2] = 0o500
     if c['days'] is not None:
         argv.append(str(c['days']))
     return W, argv, tds
